@@ -103,7 +103,21 @@ func genJournalHistory(r *core.Rand, maxOps int) JBody {
 		}
 		return ks
 	}
+	// one history in three carries a chunk whose journal record is larger than the journal writer's
+	// buffer (the store must either refuse it or be able to read it back after a reopen)
+	oversizeAt := -1
+	if b.Cfg.MemTable >= 1<<20 && b.Cfg.BuffSize <= 64<<10 && r.Chance(2, 3) {
+		oversizeAt = r.Intn(nops)
+	}
 	for len(b.Ops) < nops {
+		if len(b.Ops) >= oversizeAt && oversizeAt >= 0 {
+			oversizeAt = -1
+			c := newChunk(int(b.Cfg.BuffSize)+r.Range(64, int(b.Cfg.BuffSize)), pickKids(1))
+			b.Chunks[c].Comp = false
+			pending = append(pending, c)
+			b.Ops = append(b.Ops, JOp{Kind: "put", C: []int{c}})
+			continue
+		}
 		switch x := r.Intn(100); {
 		case x < 40: // put a batch
 			n := r.Range(1, 5)
